@@ -1,3 +1,4 @@
+import re
 from typing import ClassVar
 
 import rogw.tranp.syntax.node.definition as defs
@@ -150,7 +151,20 @@ class LiteralEvaluator:
 			結合結果
 		"""
 		quote = left[0]
-		return f'{quote}{left[1:-1]}{right[1:-1]}{quote}'
+		right_quote = right[0]
+		right_body = right[1:-1]
+		if right_quote != quote:
+			# 右辺の引用符が異なる場合、本体のエスケープを左辺の引用符に合わせる
+			def requote(matches: re.Match) -> str:
+				escaped, bare = matches.group(1), matches.group(2)
+				if bare:
+					return f'\\{quote}'
+
+				return right_quote if escaped == right_quote else matches.group(0)
+
+			right_body = re.sub(rf'\\(.)|({re.escape(quote)})', requote, right_body)
+
+		return f'{quote}{left[1:-1]}{right_body}{quote}'
 
 	def on_argument(self, node: defs.Argument, label: Evaluator.Value, value: Evaluator.Value) -> Evaluator.Value:
 		return value
